@@ -11,9 +11,21 @@ TYPES3 = ['STAX', 'STAY', 'STAZ']
 TYPES6 = TYPES3 + ['VELX', 'VELY', 'VELZ']
 
 
+NAME_SETS = {
+    None: ['ALIC', 'BRO1', 'CEDU', 'DARW', 'HOB2', 'KARR', 'MOBS', 'STR1', 'TOW2', 'YAR2', 'V001', 'ADVE'],
+    # four-character site codes that also occur inside the block headers / comment lines of the format ('+SOLUTION/ESTIMATE'[14:18]
+    # is 'MATE' - Matera, a real station; '*INDEX TYPE__ CODE ...'): a code is a code only in the code column of a data line
+    'keywords': ['MATE', 'CODE', 'SITE', 'SOLU', 'ESTI', 'EPOC', 'ENDS', 'TYPE', 'SOLN', 'UNIT'],
+}
+_NAMES = [None]
+
+
+def set_names(which):
+    _NAMES[0] = which
+
+
 def codes(n):
-    base = ['ALIC', 'BRO1', 'CEDU', 'DARW', 'HOB2', 'KARR', 'MOBS', 'STR1', 'TOW2', 'YAR2', 'V001', 'ADVE']
-    return base[:n]
+    return NAME_SETS[_NAMES[0]][:n]
 
 
 ORDERS = ['station', 'posvel', 'velfirst', 'pairs', 'reversed']
